@@ -113,6 +113,15 @@ def rand_tx(rng, kind=None, big=False):
         tx["maxFeePerGas"] = boundary_u256(rng)
         tx["chainId"] = rand_chain_id(rng)
         tx["accessList"] = rand_access_list(rng, big)
+    if tx["kind"] != LEGACY and rng.random() < 0.2:
+        # entries that coincide with other parts of the transaction: the recipient itself, the zero address, with and without keys
+        al = list(tx["accessList"])
+        a = tx["to"] if (tx.get("to") is not None and rng.random() < 0.7) else bytes(20)
+        keys = [] if rng.random() < 0.6 else [a.rjust(32, b"\x00")] + ([rand_bytes(rng, 32)] if rng.random() < 0.5 else [])
+        al.insert(rng.randrange(len(al) + 1), (a, keys))
+        if rng.random() < 0.3:
+            al.insert(rng.randrange(len(al) + 1), (a, []))
+        tx["accessList"] = al
     return tx
 
 
